@@ -129,16 +129,16 @@ pub fn check_state(rp: &Position, board: &Board, played: bool, props: &Props, wa
     let mut st = classify(rp, &legal);
     st.legality_filter_bites = rp.pseudo_legal().len() != legal.len();
     let mut d = vec![];
-    if props.c01 {
+    if props.c01 && !props.skip_state_oracles {
         d.extend(c01_state(rp, board, &legal, props, &mut st));
     }
-    if props.c03 {
+    if props.c03 && !props.skip_state_oracles {
         d.extend(c03_state(rp, board, played));
     }
-    if props.c04 {
+    if props.c04 && !props.skip_state_oracles {
         d.extend(c04_state(rp, board, played));
     }
-    if props.c05 {
+    if props.c05 && !props.skip_state_oracles {
         d.extend(c05_state(rp, board));
     }
     let mut children = vec![];
@@ -698,6 +698,7 @@ pub fn run_family(fam: Family, level: u8, props: &Props, child_props: Option<&Pr
                     }
                     let mut fam_props = *props;
                     fam_props.double_push_only = fam == Family::EpPlayed;
+                    fam_props.skip_state_oracles = fam == Family::EpPlayed;
                     let props = &fam_props;
                     t.family_positions += 1;
                     let fen = p.to_fen();
